@@ -3,16 +3,21 @@ pat_impl.py).  One case = one object X built from Python source, configured thro
 nested inside a deterministic wrapper expression, then driven by a script.
 
 stdin  {"enumerate": true}                       -> {"classes": [{name, stochastic, exported}...]} (live isobar.pattern)
-       {"cases": [{"inner": SRC, "wrap": SRC-using-X | null, "setup": [OP...], "ops": [OP...],
+       {"cases": [{"inner": SRC, "objs": [[name, SRC]...] | absent, "wrap": SRC-using-X | null, "setup": [OP...], "ops": [OP...],
                    "refs": [{"setup": [OP...], "n": N}...], "record": bool}]}
-OP     "next" | ["reset"] | ["all", m] | ["call", method, [argument sources...]]
+       "objs": named objects built in order, each source may use the names before it (a stochastic pattern that CONTAINS
+       stochastic patterns: [["I0", "iso.PWhite(0, 9)"], ["X", "iso.PSkip(I0, 0.5)"]]); the last one is X.  Without
+       "objs": X = eval(inner).
+OP     "next" | ["reset"] | ["all", m] | ["call", method, [argument sources...]] | ["callon", name, method, [argument sources...]]
        next / reset / all act on the outer pattern (the wrapper, or X itself), "call" on X (X.seed(3), X.every(5, 'generate'),
-       X.set_pattern(iso.PSeries(0, 1)) ...).
+       X.set_pattern(iso.PSeries(0, 1)) ...), "callon" on a named object (I0.seed(7)).
 stdout {"cases": [{"build": obs, "events": [obs per op], "refs": [[obs...]...], "epochs": [[[request, result]...]...] | null,
                    "opened": [[epochs before, epochs after] per setup+script op] | null, "global_touched": bool, "status": null | "timeout"}]}
 obs    {"y": value} | "stop" | {"r": exception class name}   (as in pat_impl.py; reset / call give {"y": null})
-With "record" a recording random.Random is substituted for X.rng (public attribute) BEFORE the setup calls are made:
-epoch 0 holds what was drawn before the first rng.seed(), every later rng.seed() opens a new epoch.
+With "record" a recording random.Random is substituted for the public `rng` of X and of every named stochastic object
+BEFORE the setup calls are made.  Epochs are numbered program-wide: one per recorder at its creation (what is drawn before the
+object's first rng.seed()), then one per rng.seed() of any object, in the order they happen; "owners" names the object of
+each epoch.
 Only API-level observables are read: return values, exception classes, the draws X asks of its public generator."""
 import sys, os, json, signal, random, hashlib
 sys.path.insert(0, os.path.dirname(os.path.dirname(os.path.abspath(__file__))))
@@ -36,18 +41,20 @@ def on_alarm(sig, frm):
 
 
 class Rec(random.Random):
-    """random.Random that records the results of its two primitives, random() and _randbelow(n), per epoch"""
-    def __init__(self):
+    """random.Random that records the results of its two primitives, random() and _randbelow(n), per epoch; the epochs of
+    all recorders of one case are kept in one list (`book`)"""
+    def __init__(self, book, owner):
         self.log = None
         super().__init__()
+        self.book, self.owner = book, owner
         self.log = []
-        self.epochs = [self.log]
+        book.append((owner, self.log))
 
     def seed(self, a=None, version=2):
         super().seed(a, version)
         if self.log is not None:
             self.log = []
-            self.epochs.append(self.log)
+            self.book.append((self.owner, self.log))
 
     def random(self):
         r = super().random()
@@ -80,30 +87,45 @@ def observe(f):
         return {"r": type(e).__name__}
 
 
-def call(x, op):
-    args = [eval(a, dict(NS)) for a in op[2]]
-    getattr(x, op[1])(*args)
+def call(x, method, args):
+    getattr(x, method)(*[eval(a, dict(NS)) for a in args])
     return None
 
 
 class Built:
     def __init__(self, case, setup, record):
-        self.rec = None
+        self.book = None
         self.opened = []
-        self.x = eval(case["inner"], dict(NS))
-        if record and isinstance(self.x, iso.PStochasticPattern):
-            self.rec = Rec()
-            self.x.rng = self.rec
+        self.names = {}
+        if case.get("objs"):
+            for name, src in case["objs"]:
+                self.names[name] = eval(src, dict(NS, **self.names))
+            self.x = self.names[case["objs"][-1][0]]
+        else:
+            self.x = eval(case["inner"], dict(NS))
+        self.names["X"] = self.x
+        if record:
+            self.book = []
+            done = set()
+            for name, obj in self.names.items():
+                if isinstance(obj, iso.PStochasticPattern) and id(obj) not in done:
+                    done.add(id(obj))
+                    obj.rng = Rec(self.book, name)
         for op in setup:
-            self.mark(lambda: call(self.x, op))
+            self.mark(lambda: self.call(op))
         self.p = eval(case["wrap"], dict(NS, X=self.x)) if case.get("wrap") else self.x
 
+    def call(self, op):
+        if op[0] == "callon":
+            return call(self.names[op[1]], op[2], op[3])
+        return call(self.x, op[1], op[2])
+
     def mark(self, f):
-        before = len(self.rec.epochs) if self.rec else 0
+        before = len(self.book) if self.book is not None else 0
         try:
             return f()
         finally:
-            self.opened.append([before, len(self.rec.epochs) if self.rec else 0])
+            self.opened.append([before, len(self.book) if self.book is not None else 0])
 
     def do(self, op):
         p = self.p
@@ -113,8 +135,8 @@ class Built:
             return self.mark(lambda: observe(lambda: p.reset()))
         if op[0] == "all":
             return self.mark(lambda: observe(lambda: p.all(op[1])))
-        if op[0] == "call":
-            return self.mark(lambda: observe(lambda: call(self.x, op)))
+        if op[0] in ("call", "callon"):
+            return self.mark(lambda: observe(lambda: self.call(op)))
         raise ValueError(op)
 
 
@@ -123,7 +145,7 @@ def gstate():
 
 
 def run_case(case):
-    out = {"build": None, "events": [], "refs": [], "epochs": None, "opened": None, "global_touched": False, "status": None}
+    out = {"build": None, "events": [], "refs": [], "epochs": None, "owners": None, "opened": None, "global_touched": False, "status": None}
     g0 = gstate()
     signal.setitimer(signal.ITIMER_REAL, OP_TIMEOUT * 2)
     try:
@@ -137,8 +159,9 @@ def run_case(case):
             for op in case["ops"]:
                 signal.setitimer(signal.ITIMER_REAL, OP_TIMEOUT)
                 out["events"].append(b.do(op))
-            if b.rec is not None:
-                out["epochs"] = b.rec.epochs
+            if b.book is not None:
+                out["epochs"] = [log for _, log in b.book]
+                out["owners"] = [owner for owner, _ in b.book]
                 out["opened"] = b.opened
         out["global_touched"] = gstate() != g0
         for ref in case.get("refs", []):
